@@ -156,6 +156,9 @@ def taas():
         st.lists(G.floats(-1.0, 1.0), min_size=6, max_size=6).map(lambda l: np.array(l, dtype=float) * _TAA_SCALE),
         st.lists(G.floats(-1.0, 1.0), min_size=3, max_size=3).map(
             lambda l: np.concatenate([np.array(l, dtype=float) * 10.0, np.zeros(3)])),
+        # rotation coordinates wound past a full turn (some component beyond 2 pi)
+        st.lists(G.floats(-1.0, 1.0), min_size=6, max_size=6).map(
+            lambda l: np.array(l, dtype=float) * np.array([10.0, 10.0, 10.0, 9.0, 9.0, 9.0])),
     )
 
 
@@ -863,15 +866,41 @@ def _c(a):
     return np.ascontiguousarray(np.array(a, dtype=float, copy=True))
 
 
+_LAYOUTS = st.sampled_from(["C", "C", "F", "T"])
+
+
+def _lay(v, layout):
+    if isinstance(v, np.ndarray) and v.ndim == 2 and v.dtype.kind == "f" and layout != "C":
+        if layout == "F":
+            return np.asfortranarray(v)
+        return np.ascontiguousarray(v.T).T        # transposed view of a row-major buffer holding v^T
+    return v
+
+
 def _reg_mr(name, needs, argf):
     """argf(g) -> ordered list of (argname, value) built from fresh copies g of the case's pool entries."""
     def make(ops, L, name=name, argf=argf):
-        g = {k: (_c(v) if isinstance(v, np.ndarray) else v) for k, v in ops.items()}
+        lay = ops.get("layout", "C")
+        g = {k: _lay(_c(v) if isinstance(v, np.ndarray) else v, lay) for k, v in ops.items() if k != "layout"}
         args = argf(g)
         fn = getattr(L.mr, name)
         vals = [v for _, v in args]
-        return dict(args), (lambda: fn(*vals))
-    reg("mr_functions", "mr." + name, {k: POOL[k] for k in needs}, make, mode="nomut")
+        if lay == "C":
+            return dict(args), (lambda: fn(*vals))
+
+        def call():
+            # a column-major matrix (or the transposed view of a row-major one, as R.T is) is an ordinary argument;
+            # whether a function ACCEPTS that layout is C17's subject: a refusal (the same values in row-major order
+            # are accepted) is not counted here, what is looked at is whether the arrays handed over are left alone
+            try:
+                return fn(*vals)
+            except Exception:
+                fn(*[(_c(np.ascontiguousarray(v)) if isinstance(v, np.ndarray) else v) for v in vals])
+                return None
+        return dict(args), call
+    s = {k: POOL[k] for k in needs}
+    s["layout"] = _LAYOUTS
+    reg("mr_functions", "mr." + name, s, make, mode="nomut")
 
 
 _reg_mr("NearZero", ["z"], lambda g: [("z", g["z"])])
@@ -1320,7 +1349,7 @@ def _canon_case(family, name):
     e = FAMILIES[family][name]
     if name in MODEL_ENTRIES:
         return {"entry": name, "ops": {"m": _canon_model(MODEL_ENTRIES[name])}}
-    return {"entry": name, "ops": {k: _canon()[k] for k in e.strategies}}
+    return {"entry": name, "ops": {k: ("C" if k == "layout" else _canon()[k]) for k in e.strategies}}
 
 
 _WARMED = set()
